@@ -141,7 +141,7 @@ Lemma dec_bin_get opc g rest : gres_ok Bin g ->
 Proof.
   intros (Ho & Hf & He & Hd & _). unfold bin_get_common. rewrite <- !app_assoc.
   rewrite (app_assoc (u32be _) (g_data g) rest).
-  rewrite dec_bin_hdr; try (vm_compute; reflexivity); try lia.
+  rewrite dec_bin_hdr; try (unfold statusSuccess; lia).
   - reflexivity.
   - rewrite len_app, u32be_len'. lia.
 Qed.
@@ -154,7 +154,7 @@ Proof.
   intros (Ho & Hf & He & Hd & _). rewrite <- !app_assoc.
   replace (u32be (g_flags g) ++ u32be (g_exp g) ++ g_data g ++ rest)
     with ((u32be (g_flags g) ++ u32be (g_exp g) ++ g_data g) ++ rest) by (rewrite <- !app_assoc; reflexivity).
-  rewrite dec_bin_hdr; try (vm_compute; reflexivity); try lia.
+  rewrite dec_bin_hdr; try (unfold statusSuccess; lia).
   - reflexivity.
   - rewrite !len_app, !u32be_len'. lia.
 Qed.
@@ -185,7 +185,7 @@ Proof.
   - apply dec_bin_plain; [vm_compute; reflexivity | exact Hok].
   - apply dec_bin_plain; [vm_compute; reflexivity | exact Hok].
   - destruct q; [congruence|]. apply dec_bin_plain; [vm_compute; reflexivity | exact Hok].
-  - rewrite <- app_assoc. rewrite dec_bin_hdr; try (vm_compute; reflexivity); try lia. reflexivity.
+  - rewrite <- app_assoc. rewrite dec_bin_hdr; try (unfold statusSuccess; lia); [reflexivity | vm_compute; reflexivity].
   - exfalso. exact (Hst o eq_refl).
   - apply dec_bin_error, Hok.
 Qed.
@@ -202,5 +202,179 @@ Proof.
   replace (asc "version" ++ versionNum ++ bin_hdr opStat 0 0 statusSuccess 0 0 ++ rest)
     with ((asc "version" ++ versionNum) ++ bin_hdr opStat 0 0 statusSuccess 0 0 ++ rest)
     by (rewrite <- !app_assoc; reflexivity).
-  rewrite dec_bin_hdr; try (vm_compute; reflexivity); try lia. reflexivity.
+  rewrite dec_bin_hdr; try (unfold statusSuccess; lia); try reflexivity; vm_compute; try reflexivity; try discriminate.
+Qed.
+
+(* ---------------- text ---------------- *)
+Definition nocrlfb (l : bytes) : bool := forallb (fun b => negb (b =? 13) && negb (b =? 10)) l.
+Definition nospb (l : bytes) : bool := forallb (fun b => negb (b =? 32)) l.
+
+Lemma split_crlf_cons x r acc : x <> 13 ->
+  split_crlf (x :: r) acc = if (x =? 13) || (x =? 10) then None else split_crlf r (x :: acc).
+Proof.
+  intros H. destruct x as [|p]; [reflexivity|].
+  destruct p as [p|p|]; try reflexivity.
+  destruct p as [p|p|]; try reflexivity.
+  destruct p as [p|p|]; try reflexivity.
+  destruct p as [p|p|]; try reflexivity.
+  congruence.
+Qed.
+
+Lemma split_crlf_line l : forall rest acc, nocrlfb l = true ->
+  split_crlf (l ++ crlf ++ rest) acc = Some (rev acc ++ l, rest).
+Proof.
+  induction l as [|x l IH]; intros rest acc H.
+  - cbn [app crlf split_crlf]. rewrite app_nil_r. reflexivity.
+  - unfold nocrlfb in H. cbn [forallb] in H. apply andb_true_iff in H. destruct H as [Hx Hl].
+    cbn [app]. rewrite split_crlf_cons by lia.
+    replace ((x =? 13) || (x =? 10)) with false by lia.
+    rewrite (IH rest (x :: acc) Hl). cbn [rev]. rewrite <- app_assoc. reflexivity.
+Qed.
+
+Lemma split_sp_word w : forall r acc, nospb w = true ->
+  split_sp (w ++ 32 :: r) acc = (rev acc ++ w) :: split_sp r [].
+Proof.
+  induction w as [|x w IH]; intros r acc H.
+  - cbn [app split_sp]. change (32 =? 32) with true. cbv iota. rewrite app_nil_r. reflexivity.
+  - unfold nospb in H. cbn [forallb] in H. apply andb_true_iff in H. destruct H as [Hx Hw].
+    cbn [app split_sp]. replace (x =? 32) with false by lia.
+    rewrite (IH r (x :: acc) Hw). cbn [rev]. rewrite <- app_assoc. reflexivity.
+Qed.
+Lemma split_sp_last w : forall acc, nospb w = true -> split_sp w acc = [rev acc ++ w].
+Proof.
+  induction w as [|x w IH]; intros acc H.
+  - cbn [split_sp]. rewrite app_nil_r. reflexivity.
+  - unfold nospb in H. cbn [forallb] in H. apply andb_true_iff in H. destruct H as [Hx Hw].
+    cbn [split_sp]. replace (x =? 32) with false by lia.
+    rewrite (IH (x :: acc) Hw). cbn [rev]. rewrite <- app_assoc. reflexivity.
+Qed.
+
+(* a line that is not a VALUE header *)
+Definition plain_lineb (l : bytes) : bool :=
+  nocrlfb l && match split_sp l [] with
+               | [v; _; _; _] => negb (bytes_eqb v (asc "VALUE"))
+               | _ => true
+               end.
+
+Lemma dec_text_plain l rest : plain_lineb l = true ->
+  dec_text (l ++ crlf ++ rest) = Some (TLine l, rest).
+Proof.
+  unfold plain_lineb. intros H. apply andb_true_iff in H. destruct H as [H1 H2].
+  unfold dec_text. rewrite (split_crlf_line l rest [] H1). cbn [rev app].
+  destruct (split_sp l []) as [|v [|k [|f [|n [|x y]]]]]; try reflexivity.
+  destruct (bytes_eqb v (asc "VALUE")); [discriminate H2 | reflexivity].
+Qed.
+
+Lemma firstn_line (l : bytes) : firstn (length (l ++ crlf) - 2) (l ++ crlf) = l.
+Proof.
+  rewrite app_length. cbn [crlf length]. replace (length l + 2 - 2)%nat with (length l) by lia.
+  apply firstn_len_app.
+Qed.
+
+(* digits *)
+Lemma parse_dec_any_val l : forall a, digitsb l = true -> parse_dec_any l a = Some (dval l a).
+Proof.
+  induction l as [|b l IH]; intros a D; cbn [parse_dec_any dval]; [reflexivity|].
+  unfold digitsb in D. cbn [forallb] in D. apply andb_true_iff in D. destruct D as [Db Dl].
+  rewrite Db. apply IH, Dl.
+Qed.
+Lemma parse_dec_dec n : n < 4294967296 -> parse_dec (dec n) = Some n.
+Proof.
+  intros H. unfold parse_dec. destruct (dec n) eqn:E; [exfalso; exact (dec_nonempty n E)|].
+  rewrite <- E. rewrite parse_dec_any_val by apply dec_digits. rewrite dec_val by exact H. reflexivity.
+Qed.
+Lemma digits_nocrlf l : digitsb l = true -> nocrlfb l = true.
+Proof.
+  unfold digitsb, nocrlfb. rewrite !forallb_forall. intros H x Hx. specialize (H x Hx).
+  unfold is_digit in H. lia.
+Qed.
+Lemma digits_nosp l : digitsb l = true -> nospb l = true.
+Proof.
+  unfold digitsb, nospb. rewrite !forallb_forall. intros H x Hx. specialize (H x Hx).
+  unfold is_digit in H. lia.
+Qed.
+Lemma nocrlfb_app a b : nocrlfb (a ++ b) = nocrlfb a && nocrlfb b.
+Proof. apply forallb_app. Qed.
+
+Lemma text_key_nocrlf k : text_key_ok k -> nocrlfb k = true /\ nospb k = true.
+Proof.
+  intros [_ H]. unfold nocrlfb, nospb. rewrite !forallb_forall. rewrite Forall_forall in H.
+  split; intros x Hx; specialize (H x Hx); lia.
+Qed.
+
+Lemma dec_text_value key flags data rest :
+  text_key_ok key -> flags < 4294967296 -> len data < 4294967296 ->
+  dec_text (asc "VALUE " ++ key ++ [32] ++ dec flags ++ [32] ++ dec (len data) ++ crlf ++ data ++ crlf ++ rest) =
+  Some (TValue key flags data, rest).
+Proof.
+  intros Hk Hf Hd. destruct (text_key_nocrlf key Hk) as [K1 K2].
+  pose proof (dec_digits flags) as Df. pose proof (dec_digits (len data)) as Dn.
+  set (line := asc "VALUE" ++ 32 :: key ++ 32 :: dec flags ++ 32 :: dec (len data)).
+  replace (asc "VALUE " ++ key ++ [32] ++ dec flags ++ [32] ++ dec (len data) ++ crlf ++ data ++ crlf ++ rest)
+    with (line ++ crlf ++ data ++ crlf ++ rest).
+  2:{ unfold line. change (asc "VALUE ") with (asc "VALUE" ++ [32]).
+      repeat (rewrite <- ?app_assoc; cbn [app]). reflexivity. }
+  assert (Hl : nocrlfb line = true).
+  { unfold line. rewrite nocrlfb_app. change (32 :: key ++ ?x) with ([32] ++ key ++ x).
+    change (32 :: dec flags ++ ?x) with ([32] ++ dec flags ++ x).
+    change (32 :: dec (len data)) with ([32] ++ dec (len data)).
+    rewrite !nocrlfb_app, K1, (digits_nocrlf _ Df), (digits_nocrlf _ Dn). reflexivity. }
+  unfold dec_text. rewrite (split_crlf_line line _ [] Hl). cbn [rev app].
+  unfold line. rewrite (split_sp_word (asc "VALUE")) by reflexivity.
+  rewrite (split_sp_word key) by exact K2.
+  rewrite (split_sp_word (dec flags)) by (apply digits_nosp, Df).
+  rewrite (split_sp_last (dec (len data))) by (apply digits_nosp, Dn).
+  cbn [rev app]. change (bytes_eqb (asc "VALUE") (asc "VALUE")) with true. cbv iota.
+  rewrite (parse_dec_dec flags Hf), (parse_dec_dec (len data) Hd).
+  rewrite !len_app. change (len crlf) with 2.
+  replace (len data + (2 + len rest) <? len data + 2) with false by lia.
+  rewrite drop_len_app. change (take 2 (crlf ++ rest)) with crlf. change (bytes_eqb crlf crlf) with true. cbv iota.
+  rewrite take_len_app, drop_len_add_app. reflexivity.
+Qed.
+
+Lemma err_text_plain e : plain_lineb (err_text e) = true.
+Proof.
+  assert (F : forallb plain_lineb ([] :: map snd errText_tab) = true) by (vm_compute; reflexivity).
+  rewrite forallb_forall in F. apply F. unfold err_text.
+  destruct (assocN errText_tab e) eqn:E; [right; eapply assocN_in; eauto | left; reflexivity].
+Qed.
+
+Lemma text_error_line e : exists l, text_error e = l ++ crlf /\ plain_lineb l = true.
+Proof.
+  unfold text_error.
+  repeat match goal with |- context [if ?c then _ else _] => destruct c end;
+    eexists; (split; [reflexivity|]); try (vm_compute; reflexivity). apply err_text_plain.
+Qed.
+
+Lemma text_frame : forall c rest,
+  rcall_ok Text c -> render_text c <> [] -> (forall o, c <> PStat o) ->
+  (forall g, c = PGet g -> g_miss g = false) ->
+  dec_text (render_text c ++ rest) = Some (text_frame_of c, rest).
+Proof.
+  intros c rest Hok Hne Hst Hg.
+  assert (P : forall l, render_text c = l ++ crlf -> (forall g, c <> PGet g) -> plain_lineb l = true ->
+              dec_text (render_text c ++ rest) = Some (text_frame_of c, rest)).
+  { intros l E Hn Hp. assert (T : text_frame_of c = TLine l).
+    { destruct c; try (exfalso; eapply Hn; reflexivity); unfold text_frame_of; rewrite E, firstn_line; reflexivity. }
+    rewrite T, E, <- app_assoc. apply dec_text_plain, Hp. }
+  destruct c as [rt o q|g|g|g|o ne|o|o|o|o q|o|o|o rt e q]; cbn [render_text] in Hne;
+    try congruence;
+    try (eapply P; [reflexivity | intros; discriminate | vm_compute; reflexivity]).
+  - specialize (Hg g eq_refl). cbn [render_text text_frame_of]. rewrite Hg.
+    destruct Hok as (Ho & Hf & He & Hd & Hk). cbn [render_text] in Hne.
+    repeat rewrite <- app_assoc. apply dec_text_value; [exact Hk | exact Hf | lia].
+  - destruct q; [congruence|]. eapply P; [reflexivity | intros; discriminate | vm_compute; reflexivity].
+  - apply (P (asc "VERSION " ++ versionString)); [cbn [render_text]; rewrite <- app_assoc; reflexivity
+                                                 | intros; discriminate | vm_compute; reflexivity].
+  - destruct (text_error_line e) as (l & E & Hp). eapply P; [exact E | intros; discriminate | exact Hp].
+Qed.
+
+Lemma text_stat : forall o rest,
+  exists l1, dec_text (render_text (PStat o) ++ rest) = Some (TLine l1, asc "END" ++ crlf ++ rest) /\
+             dec_text (asc "END" ++ crlf ++ rest) = Some (TLine (asc "END"), rest).
+Proof.
+  intros o rest. exists (asc "STAT version " ++ versionNum). split.
+  - cbn [render_text]. unfold stat_sep. change [13; 10] with crlf. rewrite <- !app_assoc.
+    rewrite (app_assoc (asc "STAT version ")). apply dec_text_plain. vm_compute. reflexivity.
+  - apply dec_text_plain. vm_compute. reflexivity.
 Qed.
